@@ -27,10 +27,9 @@ Proof.
     intros [= <- _]. eapply P_get_sub; eassumption.
   - intros [= <- _]. exact Hp.
   - intros [= <- _]. exact Hp.
-  - cbn in Hok. subst lit.
-    destruct (get_sub true w cp K) as [[w1 q]|] eqn:E; [|discriminate]. cbn [bind fst snd].
-    pose proof (P_get_sub _ _ _ _ Hst Hp E) as H1. pose proof (P_enum w1 ft q vkey modi H1) as H2.
-    destruct (enum_cell fts w1 ft q vkey vkey modi) as [w2 c2]. cbn [fst] in H2. intros [= <- _]. exact H2.
+  - destruct (get_sub true w cp K) as [[w1 q]|] eqn:E; [|discriminate]. cbn [bind fst snd].
+    pose proof (P_get_sub _ _ _ _ Hst Hp E) as H1. pose proof (P_enum w1 ft q lit modi H1) as H2.
+    destruct (enum_cell fts w1 ft q lit lit modi) as [w2 c2]. cbn [fst] in H2. intros [= <- _]. exact H2.
 Qed.
 
 Lemma pres_render_line l : forall w w' cs,
